@@ -38,6 +38,9 @@ pub enum What {
     /// anything (nested calls/creates): only the allowance rules are asserted
     AnyCall(u16, u8, u8),
     AnyCreate(Prog),
+    /// signed pair: nonce+1 is parked with a reported length of `a` bytes, then nonce arrives with `b` bytes
+    /// and drains it: each transaction keeps the allowance of the length reported for *it*
+    ParkDrain(u16, u16),
 }
 
 #[derive(Clone, Debug, Serialize, Deserialize)]
@@ -101,6 +104,7 @@ fn probe() -> impl Strategy<Value = Probe> {
         3 => flat_prog().prop_map(What::FlatCreate),
         3 => (any::<u16>(), 0u8..5, 0u8..6).prop_map(|(t, s, a)| What::AnyCall(t, s, a)),
         1 => evm::prog_strategy(ProgCfg::independent()).prop_map(What::AnyCreate),
+        2 => (3u16..3000, 3u16..3000).prop_map(|(a, b)| What::ParkDrain(a, b)),
     ];
     (sender, what, len_sel()).prop_map(|(sender, what, len)| Probe { sender, what, len })
 }
@@ -175,11 +179,39 @@ pub fn check(case: &Case) -> CheckResult {
             Sender::Pk(i) => pk_addr(*i),
             Sender::Signer(i) => signer_addr(*i),
         };
+        if let What::ParkDrain(la, lb) = &pr.what {
+            let n = a.account_nonce(signer_addr(3));
+            let blk = Blk { hash: HashSel::Fresh, ts: 777 };
+            let raw1 = sign_legacy(3, Some(crate::driver::chain_id()), n + 1, alloy::primitives::TxKind::Call(flat), evm::calldata(0, evm::const_val(1)));
+            let raw0 = sign_legacy(3, Some(crate::driver::chain_id()), n, alloy::primitives::TxKind::Call(flat), evm::calldata(1, evm::const_val(2)));
+            let r1 = a.raw_tx("brc20_transact", json!({"raw_tx_data": format!("0x{}", hex::encode(raw1))}), &blk, *la as u64, false);
+            if r1.ok().and_then(|v| v.as_array().map(|x| x.len())) != Some(0) {
+                fail!("C16/future-nonce-not-parked", "probe {}: {:?}", pi, r1);
+            }
+            let r0 = a.raw_tx("brc20_transact", json!({"raw_tx_data": format!("0x{}", hex::encode(raw0))}), &blk, *lb as u64, false);
+            let rcs = r0.ok().and_then(|v| v.as_array().cloned()).unwrap_or_default();
+            if rcs.len() != 2 {
+                fail!("C16/parked-tx-not-drained", "probe {}: {:?}", pi, r0);
+            }
+            for (rc, len) in rcs.iter().zip([*lb as u64, *la as u64]) {
+                let th = rc["transactionHash"].as_str().unwrap_or("").to_string();
+                let gas = a.inst.call("eth_getTransactionByHash", json!([th])).ok().and_then(|t| parse_u64(&t["gas"]));
+                if gas != Some(expected_gas(len)) {
+                    fail!("C16/gas-allowance-not-12000-per-byte", "probe {} (parked with {} bytes, drained by a call with {} bytes): transaction {} has gas {:?}, expected {}", pi, la, lb, th, gas, expected_gas(len));
+                }
+                if parse_u64(&rc["gasUsed"]).unwrap_or(u64::MAX) > expected_gas(len) {
+                    fail!("C16/gas-used-exceeds-allowance", "probe {}: gasUsed {} allowance {}", pi, rc["gasUsed"], expected_gas(len));
+                }
+            }
+            info.class("parked-then-drained-allowances");
+            continue;
+        }
         let (to, data, flat_prog) = match &pr.what {
             What::FlatCall(s, arg) => (Some(flat), evm::calldata(*s % case.flat.blocks.len() as u8, evm::const_val(*arg)), true),
             What::FlatCreate(p) => (None, evm::build_init(p, &env), true),
             What::AnyCall(t, s, arg) => (Some(evm::pick(&contracts, *t).unwrap_or(flat)), evm::calldata(*s, evm::const_val(*arg)), false),
             What::AnyCreate(p) => (None, evm::build_init(p, &env), false),
+            What::ParkDrain(..) => unreachable!(),
         };
         // estimate (only meaningful if the simulation succeeds)
         let mut o = serde_json::Map::new();
